@@ -368,7 +368,7 @@ inline void signal_throwing_values(const vf::opts &o, vf::report &R, uint64_t ca
                 kind[(size_t)i] = (int)r.below(2);
                 auto *g = &got[(size_t)i];
                 if (kind[(size_t)i] == 0) { st_listener(sig.get_emitter(), *g, canceled[(size_t)i]).detach(); desc += "coroutine,"; }
-                else { sig.connect([g, gd = st_cb_guard(&released[(size_t)i])](st_val &v) { g->push_back(v.text.size() > 20 ? v.n : -1); return true; }); desc += "callback,"; }
+                else { sig.connect([g, gd = st_cb_guard(&released[(size_t)i])](auto &&v) { g->push_back(v.text.size() > 20 ? v.n : -1); return true; }); desc += "callback,"; }
             }
             int ne = 2 + (int)r.below(6);
             for (int e = 0; e < ne; e++) {
